@@ -514,6 +514,7 @@ fn safe_opts() -> Opts {
         inner_tab: false,
         gix_only: false,
         cont_at_eof: false,
+        cont_leading_ws: false,
         max_sections: 5,
         max_entries: 4,
         ..Opts::everything()
@@ -528,7 +529,7 @@ fn describe(text: &[u8], edits: &[Edit]) -> String {
     s
 }
 
-fn main() {
+pub fn main() {
     let mut ck = Check::new("C28", "exploration");
     ck.rule("A generated git-acceptable config (C26 grammar without the constructs on which C26/C27 already report: BOM, \\b, inner tabs, odd subsection escapes, upper-case or multi-dot legacy headers, continuation at EOF) and a history of 1..15 edits decoded from the tape: set_raw_value_by, section_mut().push/set/remove, raw_values_mut_by().set_at/delete/set_all/delete_all, raw_value_mut_by().set/delete, set_existing_raw_value_by, set_existing_raw_multi_value_by, new_section(+push), remove_section, remove_section_filter, rename_section and serialize+reload, aimed mostly at existing sections/keys (any case), at duplicated sections, and sometimes at missing ones; values from a pool that needs quoting/escaping. Non-trivial: an edit targets a key defined in >= 2 sections, or writes a value needing escapes/quotes, or follows a rename/remove of the same section name. Distinct by hash of the input text and the edit list.");
     ck.assume(&format!("oracle: {} reading every intermediate serialization, plus a model of the documented API behaviour (last matching section / last occurrence wins)", Git::version()));
@@ -540,15 +541,26 @@ fn main() {
         SubCfg::new(1_200, 30_000).max_len(2200).max_shrink(150).max_discard_pct(30),
         move |t, c| {
             let doc = gen_doc(t, safe_opts());
-            // the initial model is gitoxide's own reading, cross-checked with git (C27's business if they differ)
-            let Ok(m0) = parse_model(&doc.text) else {
+            // Everything is relative to the unedited File's own serialization (File::to_bstring() may add newlines,
+            // C26's business). The initial model is gitoxide's reading of it, cross-checked with git (C27's business
+            // if they differ).
+            let mut file = match load_file(&doc.text) {
+                Ok(f) => f,
+                Err(_) => {
+                    c.discard();
+                    return;
+                }
+            };
+            let baseline = file.to_bstring();
+            let Ok(m0) = parse_model(&baseline) else {
+                c.label("baseline-not-reparsable");
                 c.discard();
                 return;
             };
             let scratch = infra!(c, Scratch::new("c28"), "scratch");
             let git = Git::new(&scratch.path, &scratch.path);
             let path = scratch.join("cfg");
-            infra!(c, std::fs::write(&path, &doc.text), "write config");
+            infra!(c, std::fs::write(&path, &baseline), "write config");
             let Some(gl0) = infra!(c, git_list(&git, &path), "git config --list") else {
                 if std::env::var_os("VERIF_C28_DEBUG").is_some() {
                     eprintln!("git rejects: {}", show(&doc.text));
@@ -591,14 +603,6 @@ fn main() {
                     return;
                 }
             }
-            let mut file = match load_file(&doc.text) {
-                Ok(f) => f,
-                Err(_) => {
-                    c.discard();
-                    return;
-                }
-            };
-            let baseline = file.to_bstring();
             let base_chunks = match chunks(&baseline) {
                 Ok(ch) if ch.len() == model.secs.len() => ch,
                 _ => {
@@ -738,6 +742,30 @@ fn main() {
                                 format!("step {step}: after remove_section_filter() a lookup of the same section name panics (stale id in the lookup tree)\n{}", describe(&doc.text, &edits)),
                             );
                             break;
+                        }
+                    }
+                }
+                // remove_section() leaves an empty id list behind; section_mut()/rename_section() `expect()` a non-empty one
+                if let Edit::RemoveSection { name, sub, .. } = &edit {
+                    if !outcome.expect_miss && !api_miss && !model.exists(name.as_bytes(), sub.as_deref()) {
+                        let probe = std::panic::catch_unwind(std::panic::AssertUnwindSafe(|| {
+                            let a = file.section_mut(name.as_str(), bsub(sub)).is_err();
+                            let b = file.rename_section(name.as_str(), bsub(sub), name.clone(), sub.clone().map(|s| Cow::Owned(s.into()))).is_err();
+                            a && b
+                        }));
+                        match probe {
+                            Err(_) => {
+                                f.add(
+                                    "lookup-of-removed-section-panics",
+                                    format!("step {step}: after remove_section() removed the last section of that name, section_mut()/rename_section() panic instead of reporting a missing section\n{}", describe(&doc.text, &edits)),
+                                );
+                                break;
+                            }
+                            Ok(false) => {
+                                f.add("api-result-differs", format!("step {step}: a removed section is still found by section_mut()/rename_section()\n{}", describe(&doc.text, &edits)));
+                                break;
+                            }
+                            Ok(true) => {}
                         }
                     }
                 }
